@@ -113,3 +113,152 @@ Proof.
     + destruct (ts + t - clk s1 <=? 0)%Z; [inversion H; subst; discriminate|]. apply REC; [lia | exact H].
     + apply REC; [lia | exact H].
 Qed.
+
+(* ---- read_until loop ------------------------------------------------------------------------ *)
+
+Lemma ser_ru_loop_dtok term : forall fuel tmo ts tr s s' r,
+  dtok (orc s) -> ser_ru_loop fuel term tmo ts tr s = (s', r) -> dtok (orc s').
+Proof.
+  induction fuel as [|f IH]; intros tmo ts tr s s' r D H; cbn [ser_ru_loop] in H.
+  - inversion H; subst. exact D.
+  - destruct (tmo_nonpos tr); [inversion H; subst; exact D|].
+    destruct (ser_read 1 s) as [[s1 b] sil] eqn:Er.
+    pose proof (ser_read_meas _ _ _ _ _ D Er) as (M1 & _).
+    destruct (endswith (buf (set_buf s1 (buf s1 ++ b))) term); [inversion H; subst; exact M1|].
+    destruct tmo as [t|].
+    + apply IH in H; [exact H | exact M1].
+    + destruct sil; [inversion H; subst; exact M1|]. apply IH in H; [exact H | exact M1].
+Qed.
+
+(* [tr] is always the remaining time computed from the clock *)
+Definition tr_ok (tmo : option Z) (ts : Z) (tr : option Z) (s : st) : Prop :=
+  match tmo with Some t => tr = Some (ts + t - clk s)%Z | None => tr = None end.
+
+Lemma ser_ru_loop_fuel term : forall fuel tmo ts tr s s' r,
+  dtok (orc s) -> tr_ok tmo ts tr s -> ser_ru_loop fuel term tmo ts tr s = (s', r) ->
+  length (orc s) + psz s + tpart tmo ts s < fuel -> r <> RFuel.
+Proof.
+  induction fuel as [|f IH]; intros tmo ts tr s s' r D TR H L; [lia|]. cbn [ser_ru_loop] in H.
+  destruct (tmo_nonpos tr) eqn:Enp; [inversion H; subst; discriminate|].
+  destruct (ser_read 1 s) as [[s1 b] sil] eqn:Er.
+  pose proof (ser_read_meas _ _ _ _ _ D Er) as (M1 & M2 & M3 & M4 & M5).
+  destruct (endswith (buf (set_buf s1 (buf s1 ++ b))) term); [inversion H; subst; discriminate|].
+  sim.
+  assert (REC : forall tr', tr_ok tmo ts tr' s1 ->
+                length (orc s1) + psz s1 + tpart tmo ts s1 < f ->
+                ser_ru_loop f term tmo ts tr' (set_buf s1 (buf s1 ++ b)) = (s', r) -> r <> RFuel).
+  { intros tr' T' L' HH. eapply IH; [| | exact HH |]; sim; [exact M1 | | ].
+    - unfold tr_ok in *. sim. exact T'.
+    - unfold tpart, tleft, psz in *; sim; exact L'. }
+  assert (T : tpart tmo ts s1 <= tpart tmo ts s)
+    by (destruct tmo; cbn [tpart]; [apply tleft_mono, M2 | lia]).
+  destruct (orc s) as [|e o'] eqn:Eo.
+  - destruct (M5 eq_refl) as (O1 & S1 & S2). rewrite O1 in *. cbn [length] in *. destruct sil.
+    + specialize (S1 eq_refl). destruct tmo as [t|]; [|inversion H; subst; discriminate].
+      unfold tr_ok in TR. subst tr. cbn [tmo_nonpos] in Enp.
+      eapply REC; [reflexivity | | exact H]. cbn [tpart] in *.
+      pose proof (tleft_tick ts t s s1 S1 ltac:(lia)). lia.
+    + destruct (S2 eq_refl) as [_ Lb]. assert (length b = 1) by (unfold len in Lb; lia).
+      destruct tmo as [t|]; eapply REC; try exact H; try reflexivity; lia.
+  - destruct (M4 ltac:(discriminate)) as [L1 ->]. cbn [length] in *.
+    destruct tmo as [t|]; eapply REC; try exact H; try reflexivity; lia.
+Qed.
+
+(* ---- operations ----------------------------------------------------------------------------- *)
+
+Lemma ser_fuel_bound tmo s ts :
+  ts = clk s -> tmo_nonpos tmo = false \/ True ->
+  length (orc s) + psz s + tpart tmo ts s < ser_fuel tmo s.
+Proof.
+  intros -> _. unfold ser_fuel, psz, tpart, tleft, ser_tick. destruct tmo as [t|]; lia.
+Qed.
+
+Lemma ser_read_op_total n tmo s s' r :
+  dtok (orc s) -> ser_read_op n tmo s = (s', r) -> dtok (orc s') /\ r <> RFuel.
+Proof.
+  unfold ser_read_op. intros D H. destruct (negb (is_open s)); [inversion H; subst; split; [exact D | discriminate]|].
+  destruct (n <=? len (buf s))%N; [inversion H; subst; sim; split; [exact D | discriminate]|].
+  destruct (tmo_nonpos tmo).
+  - destruct (ser_in_waiting s) as [s1 w] eqn:Ew.
+    pose proof (ser_in_waiting_meas _ _ _ D Ew) as (W1 & _).
+    destruct (n - len (buf s) <=? w)%N; [|inversion H; subst; split; [exact W1 | discriminate]].
+    destruct (ser_read (n - len (buf s)) s1) as [[s2 b] sil] eqn:Er.
+    pose proof (ser_read_meas _ _ _ _ _ W1 Er) as (M1 & _).
+    destruct (len (buf (set_buf s2 (buf s2 ++ b))) <? n)%N; inversion H; subst; sim; split; auto; discriminate.
+  - split; [eapply ser_read_loop_dtok; eauto|].
+    eapply ser_read_loop_fuel; [exact D | exact H |].
+    pose proof (ser_fuel_bound tmo s (clk s) eq_refl (or_intror I)). unfold psz in *. lia.
+Qed.
+
+Lemma ser_read_until_total term tmo s s' r :
+  dtok (orc s) -> ser_read_until term tmo s = (s', r) -> dtok (orc s') /\ r <> RFuel.
+Proof.
+  unfold ser_read_until. intros D H.
+  destruct (negb (is_open s)); [inversion H; subst; split; [exact D | discriminate]|].
+  set (s1 := match find term (buf s) with
+             | Some _ => s
+             | None => let '(sa, w) := ser_in_waiting s in
+                       let '(sb, b, _) := ser_read w sa in set_buf sb (buf sb ++ b)
+             end) in *.
+  assert (D1 : dtok (orc s1)).
+  { subst s1. destruct (find term (buf s)); [exact D|].
+    destruct (ser_in_waiting s) as [sa w] eqn:Ew.
+    pose proof (ser_in_waiting_meas _ _ _ D Ew) as (W1 & _).
+    destruct (ser_read w sa) as [[sb b] sil] eqn:Er.
+    pose proof (ser_read_meas _ _ _ _ _ W1 Er) as (M1 & _). exact M1. }
+  destruct (cut_term term s1) as [[sc rc]|] eqn:Ec.
+  - inversion H; subst sc rc. apply cut_term_Some in Ec as (bb & rest & -> & _ & _ & ->). sim.
+    split; [exact D1 | discriminate].
+  - split; [eapply ser_ru_loop_dtok; eauto|].
+    eapply ser_ru_loop_fuel; [exact D1 | | exact H | apply ser_fuel_bound; auto].
+    unfold tr_ok. destruct tmo; [f_equal; lia | reflexivity].
+Qed.
+
+Lemma serial_step_total s o s' x :
+  dtok (orc s) -> step Serial s o = (s', x) -> dtok (orc s') /\ o_res x <> RFuel.
+Proof.
+  intros D H. apply step_unfold in H as [H _].
+  destruct o as [| |n t|tm t|n t| |wd]; cbn [step_raw] in H; unfold nodrop in H.
+  - unfold ser_open in H. destruct (is_open s); inversion H; subst; sim; split; auto; congruence.
+  - unfold do_close in H. destruct (is_open s); inversion H; subst; sim; split; auto; congruence.
+  - destruct (ser_read_op n t s) as [s1 r1] eqn:E. inversion H; subst. eapply ser_read_op_total; eauto.
+  - destruct (ser_read_until tm t s) as [s1 r1] eqn:E. inversion H; subst. eapply ser_read_until_total; eauto.
+  - unfold ser_rut in H. destruct (ser_read_op n t s) as [s1 r1] eqn:E.
+    apply ser_read_op_total in E as [E1 E2]; [|exact D].
+    destruct r1; inversion H; subst; sim; split; auto; congruence.
+  - unfold ser_discard in H. destruct (ser_arrive_meas s D) as (A1 & _).
+    destruct (is_open s); inversion H; subst; sim; split; auto; congruence.
+  - unfold ser_write in H. destruct (is_open s); inversion H; subst; sim; split; auto; congruence.
+Qed.
+
+(* all three kinds, whole runs: the out-of-fuel outcome never arises *)
+Definition kok (k : kind) (s : st) : Prop :=
+  match k with Sock _ => kwf k s | Serial => dtok (orc s) end.
+
+Lemma step_total k s o s' x : kok k s -> step k s o = (s', x) -> kok k s' /\ o_res x <> RFuel.
+Proof.
+  destruct k as [c|]; cbn [kok]; intros W H.
+  - pose proof (step_conservation _ _ _ _ _ W H) as [_ W']. split; [exact W'|].
+    destruct W as [W P]. apply (sock_no_fuel c s o s' x W P H).
+  - apply (serial_step_total s o s' x W H).
+Qed.
+
+Lemma run_total k : forall ops s s' outs,
+  kok k s -> run k s ops = (s', outs) -> Forall (fun x => o_res x <> RFuel) outs /\ kok k s'.
+Proof.
+  induction ops as [|o ops IH]; intros s s' outs W H; cbn [run] in H.
+  - inversion H; subst. split; [constructor | exact W].
+  - destruct (step k s o) as [s1 x] eqn:E. destruct (step_total _ _ _ _ _ W E) as [E1 E2].
+    destruct (stops (o_res x)).
+    + inversion H; subst. split; [repeat constructor; exact E2 | exact E1].
+    + destruct (run k s1 ops) as [s2 xs] eqn:R. inversion H; subst.
+      apply IH in R as [R1 R2]; [|exact E1]. split; [constructor; assumption | exact R2].
+Qed.
+
+Lemma run_total_init k o t0 ops s' outs :
+  (forall c, k = Sock c -> wf c o) -> (k = Serial -> Forall ev_dt_ok o) ->
+  run k (init o t0) ops = (s', outs) -> Forall (fun x => o_res x <> RFuel) outs.
+Proof.
+  intros W D H. apply run_total in H as [H _]; [exact H|].
+  destruct k as [c|]; cbn [kok]; [apply init_kwf_sock, W; reflexivity | apply D; reflexivity].
+Qed.
